@@ -78,6 +78,11 @@ func Open(options Options) (*DB, error) {
 	if err := os.MkdirAll(options.DirPath, os.ModePerm); err != nil {
 		return nil, err
 	}
+	// 同一数据目录可以有不同的写法 (符号链接, 末尾的分隔符, "." 等), merge 临时目录与备份都由该路径推导:
+	// 统一解析为真实路径, 否则经由符号链接打开时找不到 (或之后错误地采用) 另一种写法下产生的 merge 目录, Backup 也不会拷贝任何文件
+	if resolved, err := filepath.EvalSymlinks(options.DirPath); err == nil {
+		options.DirPath = resolved
+	}
 
 	// 尝试获取文件锁
 	// 通过文件锁确保多进程下同一数据目录的 DB 实例唯一
